@@ -162,6 +162,9 @@ func (r *Run) Drift(format string, a ...interface{}) {
 
 // TLC records a TLC run in the evidence (states, transitions) and fails the run on a spec-level violation.
 func (r *Run) TLC(what string, o TLCOpts) *TLCResult {
+	if o.Timeout == 0 && r.Thorough() {
+		o.Timeout = 30 * time.Minute // a loaded machine must not turn a long exploration into "no verdict"
+	}
 	res := MustTLC(o)
 	r.mu.Lock()
 	r.states += res.Distinct
